@@ -23,6 +23,38 @@ func init() {
 }
 
 func runC30(c *eng.Ctx) {
+
+	// PARAM-section: a section reader is described by (temp offset, data offset, size); the callers work with
+	// [start, stop) windows. The size handed over is stop - start for the very start that is handed over as data offset,
+	// and the temp offset is that start shifted by the interval's (TempOffset - DataOffset).
+	if fn := c.NeedFunc("weed/filesys", "(*WrittenIntervalLinkedList).ToReader"); fn != nil {
+		calls := eng.Find(fn, eng.PlainCallTo("filesys.newFileSectionReader"))
+		if len(calls) == 0 {
+			c.Undecided("PARAM-section", eng.FuncName(fn), fn.Pos(), "newFileSectionReader call not found")
+		}
+		for i, in := range calls {
+			call := in.(*ssa.Call)
+			dataOff, size, tempOff := eng.Arg(call, 2), eng.Arg(call, 3), eng.Arg(call, 1)
+			sub, ok := eng.Unwrap(size).(*ssa.BinOp)
+			okSize := ok && sub.Op == token.SUB && sub.Y == dataOff && sub.X != dataOff
+			c.Ob("PARAM-section", fmt.Sprintf("%s size-is-stop-minus-start#%d", eng.FuncName(fn), i), okSize, call.Pos(),
+				"the size of a section is the clipped stop minus the clipped start (the start being the data offset of the same section), not the stop itself")
+			terms := strings.Join(eng.LinearTerms(tempOff), " ")
+			okTemp := eng.Mentions(tempOff, 4, func(v ssa.Value) bool { return v == dataOff }) && strings.Contains(terms, "-.DataOffset") && strings.Contains(terms, "+.TempOffset")
+			c.Ob("PARAM-section", fmt.Sprintf("%s temp-offset-shifted#%d", eng.FuncName(fn), i), okTemp, call.Pos(),
+				"the position in the temp file is the section's start shifted by TempOffset - DataOffset of the interval ("+terms+")")
+		}
+	}
+	if fn := c.NeedFunc("weed/filesys", "newFileSectionReader"); fn != nil {
+		okStop := false
+		for _, in := range eng.Find(fn, eng.StoreToField("FileSectionReader.dataStop")) {
+			if b, ok := in.(*ssa.Store).Val.(*ssa.BinOp); ok && b.Op == token.ADD && (eng.IsParam(b.X, "dataOffset") && eng.IsParam(b.Y, "size") || eng.IsParam(b.Y, "dataOffset") && eng.IsParam(b.X, "size")) {
+				okStop = true
+			}
+		}
+		c.Ob("PARAM-section", eng.FuncName(fn)+" stop-is-offset-plus-size", okStop, fn.Pos(), "the reader's end is data offset + size (its last parameter is a size)")
+	}
+	c.Expect("PARAM-section", 3)
 	impls := []string{"ContinuousDirtyPages", "TempFileDirtyPages"}
 	sigs := map[string]string{}
 	for _, im := range impls {
